@@ -778,9 +778,9 @@ class Interp:
                     if k == self.max_unroll:
                         raise Unsupported("unwind bound %d hit" % self.max_unroll)
                     self.block(s.body, st, pc)
-                    if is_sym(st["brk"]) or is_sym(st["cont"]):
+                    if is_sym(st.get("brk", False)) or is_sym(st.get("cont", False)):
                         raise Unsupported("symbolic break/continue in a while loop")
-                    if st["retc"] is True or st["brk"] is True:
+                    if st["retc"] is True or st.get("brk", False) is True:
                         return
             finally:
                 st["brk"], st["cont"], st["inloop"] = outer
@@ -1829,6 +1829,16 @@ class Session:
         if side:
             self.res["extra"]["side_checks"] += 1
             r, m, why = self.check(*(prem + [z3.Not(z3.And(*[c for _, c in side]))]))
+            if r == "unknown" and on_unknown is not None:
+                got = on_unknown()
+                if got is not None and got[0] == "sat":
+                    self.fail(key, got[1], got[2])
+                    return "sat"
+                if got is not None and got[0] == "unsat":
+                    self.note(got[1])
+                    self.res["extra"]["decided_by_fallback"] = self.res["extra"].get("decided_by_fallback", 0) + 1
+                    self.res["confirmed"] += 1
+                    return "unsat"
             if r != "unsat":
                 bad = ""
                 if r == "sat":
